@@ -389,6 +389,33 @@ def main(tier):
             if r2.violated is None:
                 verdict.machinery_failure("model insensitive: %s satisfies atomicity" % name)
 
+    # beyond the exhaustive bound: random walks through composites of up to 5 leaves
+    sim_info = {}
+    if tier == "thorough":
+        c = constants("thorough")
+        c["MaxLeaves"] = 5
+        cfg3 = os.path.join(common.SCRATCH_BASE, "c10sim_%d.cfg" % os.getpid())
+        tlc.write_cfg(cfg3, constants=c, invariants=INVARIANTS + ["Export"])
+        simb = []
+        r3 = tlc.run("MC_RopeChange", cfg3, simulate={"num": 2500}, depth=60, seed=common.SEED + 10,
+                     on_tagged=lambda t, v: simb.append(v), collect_tags=False)
+        os.unlink(cfg3)
+        print("TLC RopeChange[simulation, 5 leaves]:", r3.summary(), "behaviours:", len(simb))
+        sim_info = {**r3.summary(), "behaviours": len(simb)}
+        if not r3.ok:
+            if r3.violated:
+                path = common.write_replay(PROP, {"kind": "tlc-counterexample", "invariant": r3.violated,
+                                                  "trace": r3.trace})
+                print("VIOLATION property=%s replay=%s" % (PROP, path))
+                return 1
+            verdict.machinery_failure("simulation run: %s" % r3.error)
+        seen = {common.digest(b) for b in behs}
+        for b in simb:
+            d = common.digest(b)
+            if d not in seen:
+                seen.add(d)
+                behs.append(b)
+
     rnd = common.rng("c10")
     behs.sort(key=lambda b: json.dumps(b, sort_keys=True))
     total = len(behs)
@@ -446,6 +473,7 @@ def main(tier):
                 "command was issued by the call under test",
         "conformance_mismatches": conf_mismatch,
         "model_sensitivity": sens,
+        "simulation_beyond_bound": sim_info,
         "tlc": res.summary(),
         "constants": {k: (v.name if isinstance(v, tlc.Sub) else sorted(v) if isinstance(v, set) else v)
                       for k, v in constants(tier).items()},
